@@ -95,6 +95,37 @@ class FakeLock:
         self.__exit__()
 
 
+class TracedState(dict):
+    """odc.geo.cog._s3._state with a seam at every access the code makes (the process-local lock table)"""
+
+    def get(self, k, default=None):
+        _yp("sget")
+        return dict.get(self, k, default)
+
+    def setdefault(self, k, default=None):
+        _yp("ssd")
+        return dict.setdefault(self, k, default)
+
+    def __setitem__(self, k, v):
+        _yp("sset")
+        dict.__setitem__(self, k, v)
+
+    def __getitem__(self, k):
+        _yp("sget")
+        return dict.__getitem__(self, k)
+
+
+def _lock_factory():
+    """threading.Lock stand-in: every call is a NEW lock object (its own name), as in the real module"""
+    n = [0]
+
+    def mk():
+        n[0] += 1
+        return FakeLock(f"local#{n[0]}")
+
+    return mk
+
+
 class FakeVariable:
     """distributed.Variable stand-in: get() of a never-set variable times out."""
     store = {}
@@ -125,8 +156,9 @@ def _cell(mode, cells, p):
     return 1 if p in (1, 2) else p + 1
 
 
-def replay_schedule(case):
-    """Replay one TLC schedule on real threads."""
+def replay_schedule(case, explore=None):
+    """Replay one TLC schedule on real threads (explore = None), or let a seeded explorer pick, at every seam, which of the
+    really runnable threads goes next (explore = [seed, style]): the schedule then comes from the code, not from the model."""
     global _B
     import distributed
     import odc.geo.cog._s3 as S3
@@ -139,7 +171,10 @@ def replay_schedule(case):
     fake = FakeS3()
     client = object() if mode == "dist" else None
     TracedMPU = _traced_mpu_class()
-    saved_state = dict(S3._state)
+    saved_state = S3._state
+    state = TracedState()
+    if not case.get("first", False):
+        dict.__setitem__(state, "mpu_lock", FakeLock("local#0"))
 
     def dask_client():
         _yp("cli")
@@ -148,9 +183,10 @@ def replay_schedule(case):
     writers = {}
     try:
         with mock.patch.object(S3, "_dask_client", dask_client), \
+                mock.patch.object(S3, "_state", state), \
+                mock.patch.object(S3, "Lock", _lock_factory()), \
                 mock.patch.object(distributed, "Lock", FakeLock), \
                 mock.patch.object(distributed, "Variable", FakeVariable):
-            S3._state["mpu_lock"] = FakeLock("local")
             for p in range(0, n + 1):
                 c = _cell(mode, cells, p)
                 if c not in writers:
@@ -172,8 +208,25 @@ def replay_schedule(case):
             for p in range(1, n + 1):
                 B.spawn(p, writer_fn(p))
             B.spawn(0, fin_fn)
-            for p, _kind in case["sched"]:
-                B.step(p)
+            if explore is None:
+                for p, _kind in case["sched"]:
+                    B.step(p)
+            else:
+                import random
+                rng = random.Random(explore[0])
+                style, last = explore[1], None
+                for _ in range(400):
+                    en = [p for p in range(0, n + 1) if B.enabled(p)]
+                    if not en:
+                        break
+                    if style == "sticky" and last in en and rng.random() < 0.7:
+                        p = last
+                    elif style == "switchy" and last in en and len(en) > 1 and rng.random() < 0.8:
+                        p = rng.choice([x for x in en if x != last])
+                    else:
+                        p = rng.choice(en)
+                    B.step(p)
+                    last = p
             # drain: whatever the real code still has to do after the model's (maximal) schedule
             progress = True
             while progress:
@@ -187,11 +240,16 @@ def replay_schedule(case):
             B.finish()
     finally:
         _B = None
-        S3._state.clear()
-        S3._state.update(saved_state)
+        assert S3._state is saved_state
     outcomes = [[p, B.results.get(p, ("never_ran",))[0]] for p in range(0, n + 1) if B.results.get(p, ("x",))[0] != "aborted"]
-    return {"mode": mode, "n": n, "cells": cells, "sched": case["sched"], "final": case["final"],
-            "steps": [[p, k] for p, k in B.steps], "calls": fake.calls, "outcomes": outcomes, "deadlock": bool(deadlock)}
+    steps = [[p, k] for p, k in B.steps]
+    ev = {"mode": mode, "n": n, "cells": cells, "first": bool(case.get("first", False)), "sched": case["sched"], "final": case["final"],
+          "steps": steps, "calls": fake.calls, "outcomes": outcomes, "deadlock": bool(deadlock)}
+    if explore is not None:
+        # the schedule is the one the real threads took; S3Real.tla steps the model along it
+        cnt = lambda k: sum(1 for c in fake.calls if c[0] == k)  # noqa: E731
+        ev.update(explore=list(explore), sched=steps, final={"ncreated": cnt("crt"), "nparts": cnt("up"), "ncompleted": cnt("complete"), "nfailed": 0})
+    return ev
 
 
 # --------------------------------------------------------------------------- file sink / limits
@@ -251,8 +309,50 @@ def _validate(ctx, events):
     return ctx.validate("s3/S3Trace.tla", events, "S3Trace.cfg", batch=2500)
 
 
+REAL_CFGS = [{"mode": "local", "n": 2, "cells": "separate", "first": True}, {"mode": "local", "n": 2, "cells": "separate", "first": False},
+             {"mode": "local", "n": 3, "cells": "separate", "first": True}, {"mode": "dist", "n": 2, "cells": "pair", "first": False},
+             {"mode": "dist", "n": 2, "cells": "separate", "first": False}, {"mode": "dist", "n": 3, "cells": "pair", "first": False}]
+
+
+def _explore_job(job):
+    cfg, seed, style = job
+    return replay_schedule(dict(cfg, sched=[], final={}), explore=[seed, style])
+
+
+def _validate_real(ctx, cfg, events):
+    """S3Real.tla: the model stepped along the schedules the real threads took (one TLC run per configuration)"""
+    from .. import tlc as T
+
+    if not events:
+        return []
+    name = f"S3Real_{cfg['mode']}{cfg['n']}_{cfg['cells']}_{int(cfg['first'])}"
+    cfgp = os.path.join(ctx.scratch, name + ".cfg")
+    with open(cfgp, "w") as f:
+        f.write("SPECIFICATION RSpec\nCONSTANTS\n  NWriters = %d\n  Mode = \"%s\"\n  FirstUse = %s\n  Recheck = TRUE\n  TrackSched = FALSE\n  CellMap = \"%s\"\n"
+                % (cfg["n"], cfg["mode"], "TRUE" if cfg["first"] else "FALSE", cfg["cells"]))
+        f.write("INVARIANT AtMostOneInitiate\nINVARIANT PartsUnderTheOneId\nCHECK_DEADLOCK FALSE\n")
+    tr = os.path.join(ctx.scratch, name + ".json")
+    T.write_json(tr, {"events": [{"steps": e["steps"], "calls": e["calls"]} for e in events]})
+    res = T.run_tlc("s3/S3Real.tla", cfgp, env={"TRACE_FILE": tr}, timeout=900, scratch=ctx.scratch)
+    if res.timed_out or res.rc != 0 or not res.no_error:
+        raise MachineryError(f"S3Real {name}: TLC rc={res.rc} {res.errors[:3]}\n" + "\n".join(res.stdout.splitlines()[-15:]))
+    ctx.states += res.distinct
+    ctx.transitions += res.generated
+    ctx.m_runs.append({"model": f"S3Real ({name}: S3Init stepped along {len(events)} schedules taken by the real threads)", "distinct_states": res.distinct,
+                       "states_generated": res.generated})
+    out = {}
+    for _, tid, v in res.printed("R"):
+        out[tid] = v
+    if len(out) != len(events):
+        raise MachineryError(f"S3Real {name}: {len(out)} verdicts for {len(events)} traces")
+    return [out[i + 1] for i in range(len(events))]
+
+
 def _key(ev):
-    return {"mode": ev["mode"], "n": ev["n"], "cells": ev["cells"], "sched": ev["sched"], "final": ev["final"]}
+    k = {"mode": ev["mode"], "n": ev["n"], "cells": ev["cells"], "first": ev.get("first", False), "sched": ev["sched"], "final": ev["final"]}
+    if ev.get("explore"):
+        k["explore"] = ev["explore"]
+    return k
 
 
 def run(ctx):
@@ -288,6 +388,28 @@ def run(ctx):
                    nontrivial=len({p for p, _ in ev["sched"][:8]}) > 1,
                    sample={"mode": ev["mode"], "cells": ev["cells"], "schedule": "".join(str(p) for p, _ in ev["sched"]), "calls": ev["calls"], "outcomes": ev["outcomes"]})
     ctx.traces_validated = len(events)
+    # ---- the other direction: schedules chosen on the real threads by a seeded explorer, validated against the model
+    per = 400 if q else 6000
+    nreal = 0
+    for cfg in REAL_CFGS:
+        jobs = [(cfg, ctx.seed * 1000003 + k, ("uniform", "sticky", "switchy")[k % 3]) for k in range(per)]
+        revents = ctx.pmap(_explore_job, jobs, procs=16)
+        seen, uniq = set(), []
+        for ev in revents:
+            key = json.dumps(ev["steps"])
+            if key not in seen:
+                seen.add(key)
+                uniq.append(ev)
+        pv = _validate(ctx, uniq)                 # property predicates on the observed calls / outcomes
+        cv = _validate_real(ctx, cfg, uniq)       # the schedule is a behaviour of the model
+        for ev, a, b in zip(uniq, pv, cv):
+            v = a if a.startswith("reject") else (b if b != "ok" else a)
+            ctx.record(_key(ev), v, op=f"real:{ev['mode']}{ev['n']}/{ev['cells']}/{'first' if ev['first'] else 'warm'}", conformance=True,
+                       nontrivial=len({p for p, _ in ev["steps"][:8]}) > 1,
+                       sample={"mode": ev["mode"], "cells": ev["cells"], "schedule": "".join(str(p) for p, _ in ev["steps"]), "calls": ev["calls"], "outcomes": ev["outcomes"]})
+        nreal += len(uniq)
+    ctx.traces_validated += nreal
+    ctx.extra["real_thread_schedules_validated"] = nreal
     # ---- file sink and limits
     res, scases = ctx.model_check("s3/SinkGen.tla", "SinkGen.cfg", emit=True, timeout=600)
     scases.sort(key=lambda c: json.dumps(c, sort_keys=True))
@@ -302,14 +424,20 @@ def run(ctx):
     ctx.traces_validated += len(sevents)
     ctx.rule = ("schedules = every maximal interleaving of 2 writers + finaliser (local path all; distributed paths a seeded subset in the quick tier) and "
                 "simulated interleavings of 3 writers, each replayed on real threads through seams; non-trivial = at least two processes interleave within the "
-                "first 8 steps; sink cases = part counts/sizes/orders/parts-dir placements and all subsets of limit keywords; distinct by schedule / case")
+                "first 8 steps; plus schedules taken by the real threads under a seeded explorer (uniform / sticky / switchy) in 6 configurations, each checked to be a behaviour of the model; sink cases = part counts/sizes/orders/parts-dir placements and all subsets of limit keywords; distinct by schedule / case")
     ctx.assumptions = ["fake boto3 client, fake distributed.Variable/Lock with the documented semantics (no cluster in the sandbox)",
                        "seams: every access to MultiPartUpload.uploadId (property on a harness subclass), _dask_client, lock enter/exit, Variable get/set/delete, client calls"]
 
 
 def replay(ctx, obj):
     c = obj["case"]
-    if "sched" in c:
+    if c.get("explore"):
+        ev = replay_schedule(dict(c, sched=[], final={}), explore=c["explore"])
+        a = _validate(ctx, [ev])[0]
+        b = _validate_real(ctx, {k: c[k] for k in ("mode", "n", "cells", "first")}, [ev])[0]
+        v = a if a.startswith("reject") else (b if b != "ok" else a)
+        print(f"replay: steps={ev['steps']} calls={ev['calls']} outcomes={ev['outcomes']} deadlock={ev['deadlock']} verdict={v}")
+    elif "sched" in c:
         ev = replay_schedule(c)
         v = _validate(ctx, [ev])[0]
         print(f"replay: steps={ev['steps']} calls={ev['calls']} outcomes={ev['outcomes']} deadlock={ev['deadlock']} verdict={v}")
